@@ -166,7 +166,7 @@ func parsePossibility(input *input, relation *Relation) error {
 				return err
 			}
 			continue
-		case ' ', '(':
+		case ' ', '\t', '\r', '\n', '(', '[', '<':
 			err := parsePossibilityControllers(input, ret)
 			if err != nil {
 				return err
@@ -216,7 +216,7 @@ func parseMultiarch(input *input, possi *Possibility) error {
 	for {
 		peek := input.Peek()
 		switch peek {
-		case ',', '|', 0, ' ', '(', '[', '<':
+		case ',', '|', 0, ' ', '\t', '\r', '\n', '(', '[', '<':
 			arch, err := ParseArch(name)
 			if err != nil {
 				return err
@@ -339,6 +339,13 @@ func parsePossibilityNumber(input *input, version *VersionRelation) error {
 			return errors.New("Oh no. Reached EOF before Number finished")
 		case ')':
 			return nil
+		case ' ', '\t', '\r', '\n':
+			/* Only the closing paren (or EOF, handled above) may follow */
+			eatWhitespace(input)
+			if next := input.Peek(); next != ')' && next != 0 {
+				return errors.New("Whitespace inside a Version Number")
+			}
+			continue
 		}
 		version.Number += string(input.Next())
 	}
@@ -350,6 +357,7 @@ func parsePossibilityArchs(input *input, possi *Possibility) error {
 	input.Next() /* Assert ch == '[' */
 
 	for {
+		eatWhitespace(input) /* blanks before the next arch or the ']' */
 		peek := input.Peek()
 		switch peek {
 		case 0:
@@ -391,7 +399,7 @@ func parsePossibilityArch(input *input, possi *Possibility) error {
 			return errors.New("Oh no. Reached EOF before Arch list finished")
 		case '!':
 			return errors.New("You can only negate whole blocks :(")
-		case ']', ' ': /* Let our parent deal with both of these */
+		case ']', ' ', '\t', '\r', '\n': /* Let our parent deal with these */
 			archObj, err := ParseArch(arch)
 			if err != nil {
 				return err
@@ -413,6 +421,7 @@ func parsePossibilityStageSet(input *input, possi *Possibility) error {
 
 	stageSet := StageSet{}
 	for {
+		eatWhitespace(input) /* blanks before the next stage or the '>' */
 		peek := input.Peek()
 		switch peek {
 		case 0:
@@ -446,7 +455,7 @@ func parsePossibilityStage(input *input, stageSet *StageSet) error {
 				return errors.New("Double-negation (!!) of a single Stage is not permitted :(")
 			}
 			stage.Not = !stage.Not
-		case '>', ' ': /* Let our parent deal with both of these */
+		case '>', ' ', '\t', '\r', '\n': /* Let our parent deal with these */
 			stageSet.Stages = append(stageSet.Stages, stage)
 			return nil
 		}
